@@ -13,6 +13,12 @@ import (
 	rt "github.com/safing/portbase/zz_verifrt"
 )
 
+// an error wrapping another one
+type c15Wrap struct{ err error }
+
+func (w c15Wrap) Error() string { return "wrapped" }
+func (w c15Wrap) Unwrap() error { return w.err }
+
 func c15Setup(threshold int) *Module {
 	resetC15()
 	SetStdErrReporting(false)
@@ -48,15 +54,21 @@ func VerifC15_Accounting() {
 	rt.SchedYieldOnly(true)
 	m := c15Setup(2)
 	variant := rt.Choice("variant", 9)
-	outcome := rt.Choice("outcome", 3) // 0 ok, 1 error, 2 panic
+	outcome := rt.Choice("outcome", 5) // 0 ok, 1 error, 2 panic, 3 context.Canceled, 4 an error wrapping it
 	fnErr := errors.New("microtask failed")
+	switch outcome {
+	case 3:
+		fnErr = context.Canceled
+	case 4:
+		fnErr = c15Wrap{context.Canceled}
+	}
 	runs := 0
 	fn := func(ctx context.Context) error {
 		runs++
 		rt.Assert(atomic.LoadInt32(m.microTaskCnt) == 1, "acct/module-counter-during-run")
 		rt.Assert(atomic.LoadInt32(microTasks) >= 1, "acct/global-counter-during-run")
 		switch outcome {
-		case 1:
+		case 1, 3, 4:
 			return fnErr
 		case 2:
 			panic("microtask panicked")
@@ -119,7 +131,7 @@ func VerifC15_Accounting() {
 		switch outcome {
 		case 0:
 			rt.Assert(err == nil, "acct/nil-error-returned")
-		case 1:
+		case 1, 3, 4:
 			rt.Assert(err == fnErr, "acct/error-returned")
 		case 2:
 			isPanic, me := IsPanic(err)
